@@ -51,7 +51,7 @@ func init() {
 		ruleMemberLoops(inPkgs("orb."), 17, 0),
 		ruleBoxPredicates(orbBoundPredicates),
 		ruleEqualSameKind,
-		ruleCompose(concatSpecs(reverseSpecs, cloneSpecs, boundSpecs, shoelaceSpecs("orientation")), 108),
+		ruleCompose(concatSpecs(reverseSpecs, cloneSpecs, boundSpecs, shoelaceSpecs("orientation"), equalSpecs), 200),
 	)
 
 	register("C01",
